@@ -47,9 +47,9 @@ theorem lookup_append_pad (ρ : CEnv) (bs : List Core.Binding) {b : Core.Binding
 /-- the ideal environment can be padded so that any given variables are bound -/
 theorem ideal_pad (bs : List Core.Binding) {n : Nat} {xs : List String} {env : Fun.Env}
     {ρ0 ρ : CEnv} {k : Fun.Stack} {c : Core.Term} {sb : List Core.Binding}
-    (he : EnvRel (GP p) q n xs env ρ0) (hr : CRel (GP p) q n k c ρ0) (hbd : BoundOn sb ρ0)
+    (he : EnvRel (GP p) p q n xs env ρ0) (hr : CRel (GP p) p q n k c ρ0) (hbd : BoundOn sb ρ0)
     (hag : AgreeOn sb ρ0 ρ) :
-    ∃ ρ0p, EnvRel (GP p) q n xs env ρ0p ∧ CRel (GP p) q n k c ρ0p ∧ BoundOn sb ρ0p ∧ AgreeOn sb ρ0p ρ ∧
+    ∃ ρ0p, EnvRel (GP p) p q n xs env ρ0p ∧ CRel (GP p) p q n k c ρ0p ∧ BoundOn sb ρ0p ∧ AgreeOn sb ρ0p ρ ∧
       BoundOn bs ρ0p := by
   refine ⟨ρ0 ++ bs.map (fun b => (b.var, Core.Val.int 0)), ?_, ?_, ?_, ?_, ?_⟩
   · refine .of_get fun y hy => ?_
@@ -93,67 +93,103 @@ theorem consNames_xcase {cs : Fun.Clauses} {c : Core.Term} {st : CompileState} {
 /-! ## the capture guard -/
 
 /-- simulation through the capture guard of `let` / `case`: on the guarded path the Core machine
-first binds the fresh covariable to the consumer -/
+first binds the fresh covariable to the value of the consumer (at a codata type: it forces the
+consumer and binds the covariable to the destructor value) -/
 theorem guard_sim (X : Ctx p q) {binders : List String} {ty : Option Fun.Ty} {site : String}
     {core : CwcFn} {c : Core.Term} {st : CompileState} {s : Core.Stmt} {st' : CompileState}
     {n : Nat} {k : Fun.Stack} {env : Fun.Env} {ρ0 ρ : CEnv} {out : Out} {sf : Fun.State} {b : Bool}
-    (xs : List String)
-    (hcomp : guarded binders ty site core c st = .ok (s, st')) (hnct : ncdO p ty = true)
+    (xs : List String) {t0 : Fun.Ty}
+    (hcomp : guarded binders ty site core c st = .ok (s, st')) (hty : ty = some t0)
+    (hkind : Core.isCodata q.codataTypes (compileTy t0) = kkind k) (hnosig : sig ∉ st.usedVars)
     (hbu : ∀ x ∈ binders, x ∈ st.usedVars) (hxs : ∀ x ∈ xs, x ∈ st.usedVars)
-    (hcn : ConsNames c st n) (he : EnvRel (GP p) q n xs env ρ0) (hr : CRel (GP p) q n k c ρ0)
+    (hcn : ConsNames c st n) (he : EnvRel (GP p) p q n xs env ρ0) (hr : CRel (GP p) p q n k c ρ0)
     (hbd : BoundOn (tfvStmt s []) ρ0) (hag : AgreeOn (tfvStmt s []) ρ0 ρ)
-    (Hcore : ∀ c' st1 s' ρ0' ρ', core c' st1 = .ok (s', st') → FS st st1 → ConsNames c' st1 n →
-      (∀ b ∈ tfvTerm c' [], b.var.name ∉ binders) →
-      EnvRel (GP p) q n xs env ρ0' → CRel (GP p) q n k c' ρ0' → BoundOn (tfvStmt s' []) ρ0' →
-      AgreeOn (tfvStmt s' []) ρ0' ρ' → Chunk p q (R p q) b cp μ sf ⟨s', ρ', out, n⟩) :
+    (Hcore : ∀ n' c' st1 s' ρ0' ρ', n ≤ n' → core c' st1 = .ok (s', st') → FS st st1 →
+      ConsNames c' st1 n' → (∀ b ∈ tfvTerm c' [], b.var.name ∉ binders) →
+      EnvRel (GP p) p q n' xs env ρ0' → CRel (GP p) p q n' k c' ρ0' → BoundOn (tfvStmt s' []) ρ0' →
+      AgreeOn (tfvStmt s' []) ρ0' ρ' → Chunk p q (R p q) b cp μ sf ⟨s', ρ', out, n'⟩) :
     Chunk p q (R p q) b cp μ sf ⟨s, ρ, out, n⟩ := by
   rw [guarded_eq_of_binders_used binders ty site core c st hbu] at hcomp
   by_cases hbo : bindersOccurFree binders c = true
   · rw [if_pos hbo] at hcomp
-    obtain ⟨t, rfl, hnc⟩ := X.cod.ncd hnct
-    have htriv : True := trivial
-    cases htriv with
-    | intro =>
-      simp only at hcomp
-      cases hx : core (.var .cns ⟨(freshCovar st).1, 0⟩ (compileTy t)) (freshCovar st).2 with
-      | error e => simp [hx] at hcomp
-      | ok r =>
-        obtain ⟨s1, st1⟩ := r
-        simp only [hx, Except.ok.injEq, Prod.mk.injEq] at hcomp
-        obtain ⟨rfl, rfl⟩ := hcomp
-        have hagc : AgreeOn (tfvTerm c []) ρ0 ρ := hag.mono fun y hy => mem_tfv_cut.2 (.inr hy)
+    subst hty
+    simp only at hcomp
+    cases hx : core (.var .cns ⟨(freshCovar st).1, 0⟩ (compileTy t0)) (freshCovar st).2 with
+    | error e => simp [hx] at hcomp
+    | ok r =>
+      obtain ⟨s1, st1⟩ := r
+      simp only [hx, Except.ok.injEq, Prod.mk.injEq] at hcomp
+      obtain ⟨rfl, rfl⟩ := hcomp
+      have hagc : AgreeOn (tfvTerm c []) ρ0 ρ := hag.mono fun y hy => mem_tfv_cut.2 (.inr hy)
+      have ha_fresh := freshCovar_not_mem st
+      have ha_sig := freshCovar_ne_sig st
+      have hbd1 : BoundOn ((tfvStmt s1 []).filter (·.var ≠ ⟨(freshCovar st).1, 0⟩)) ρ0 :=
+        hbd.mono fun y hy => by
+          obtain ⟨h1, h2⟩ := List.mem_filter.1 hy
+          exact mem_tfv_cut.2 (.inl (mem_tfv_mu_of h1 (by simpa using h2)))
+      have hag1 : AgreeOn ((tfvStmt s1 []).filter (·.var ≠ ⟨(freshCovar st).1, 0⟩)) ρ0 ρ :=
+        hag.mono fun y hy => by
+          obtain ⟨h1, h2⟩ := List.mem_filter.1 hy
+          exact mem_tfv_cut.2 (.inl (mem_tfv_mu_of h1 (by simpa using h2)))
+      have hcn1 : ∀ m, ConsNames (.var .cns ⟨(freshCovar st).1, 0⟩ (compileTy t0)) (freshCovar st).2 m := by
+        intro m b hb
+        simp only [occTerm, List.mem_singleton] at hb
+        subst hb
+        exact .inr ⟨ha_sig, by rw [freshCovar_used]; exact List.mem_cons_self⟩
+      have hnb : ∀ b ∈ tfvTerm (.var .cns ⟨(freshCovar st).1, 0⟩ (compileTy t0)) [],
+          b.var.name ∉ binders := by
+        intro b hb hmem
+        rw [mem_tfv_var] at hb
+        subst hb
+        exact ha_fresh (hbu _ hmem)
+      have hxne : ∀ y ∈ xs, (⟨(freshCovar st).1, 0⟩ : Core.Ident) ≠ ⟨y, 0⟩ := by
+        intro y hy e
+        have : (freshCovar st).1 = y := by cases e; rfl
+        exact ha_fresh (this ▸ hxs y hy)
+      cases hkk : kkind k with
+      | false =>
+        rw [hkk] at hkind
         have hrρ := hr.agree hagc
+        have hck := hr.tyOK hkk
         cases hrρ with
         | @mk _ _ _ cv hcv hk hi hb' _ =>
-          have hs := step_cut_mu (q := q) (cty := compileTy t) (ty := compileTy t) hnc
+          have hs := step_cut_mu (q := q) (cty := compileTy t0) (ty := compileTy t0) hkind
             (a := ⟨(freshCovar st).1, 0⟩) (s := s1) (ρ := ρ) (out := out) (n := n) hi hcv .prd
-          have ha_fresh := freshCovar_not_mem st
-          have ha_sig := freshCovar_ne_sig st
-          refine Chunk.prefixCore (.one hs) rfl (Hcore _ _ _ ((⟨(freshCovar st).1, 0⟩, cv) :: ρ0) _ hx
-            (fs_stepRel.freshCovar st) ?_ ?_ ?_ ?_ ?_ ?_)
-          · intro b hb
-            simp only [occTerm, List.mem_singleton] at hb
-            subst hb
-            exact .inr ⟨ha_sig, by rw [freshCovar_used]; exact List.mem_cons_self⟩
-          · intro b hb hmem
-            rw [mem_tfv_var] at hb
-            subst hb
-            exact ha_fresh (hbu _ hmem)
-          · refine he.agree fun y hy => lookup_cons_ne ?_ _ _
-            intro e
-            have : (freshCovar st).1 = y := by cases e; rfl
-            exact ha_fresh (this ▸ hxs y hy)
+          refine Chunk.prefixCore (.one hs) rfl (Hcore n _ _ _ ((⟨(freshCovar st).1, 0⟩, cv) :: ρ0) _
+            (Nat.le_refl n) hx (fs_stepRel.freshCovar st) (hcn1 n) hnb ?_ ?_ ?_ ?_)
+          · exact he.agree fun y hy => lookup_cons_ne (hxne y hy) _ _
           · exact .mk (by simp [Core.cnsVal, lookup_cons]) hk trivial
-              (fun b hb => by rw [mem_tfv_var] at hb; subst hb; exact ⟨_, lookup_cons_self _ _ _⟩) hnc
-          · exact BoundOn.cons (hbd.mono fun y hy => by
-              obtain ⟨h1, h2⟩ := List.mem_filter.1 hy
-              exact mem_tfv_cut.2 (.inl (mem_tfv_mu_of h1 (by simpa using h2))))
-          · exact AgreeOn.cons (hag.mono fun y hy => by
-              obtain ⟨h1, h2⟩ := List.mem_filter.1 hy
-              exact mem_tfv_cut.2 (.inl (mem_tfv_mu_of h1 (by simpa using h2))))
+              (fun b hb => by rw [mem_tfv_var] at hb; subst hb; exact ⟨_, lookup_cons_self _ _ _⟩) hkind
+          · exact BoundOn.cons hbd1
+          · exact AgreeOn.cons hag1
+        | mkD _ _ _ _ hty' => rw [hty'] at hck; cases hck
+        | dtor _ _ _ _ _ _ _ _ _ _ _ hty' => simp only [coreGetType] at hck; rw [hty'] at hck; cases hck
+      | true =>
+        rw [hkk] at hkind
+        have hck : Core.isCodata q.codataTypes (coreGetType c) = true := by rw [← hr.kk]; exact hkk
+        obtain ⟨i, S1, ρ1, pv, d, Vs, hcs, ho, hm1, hext, hpv, hs, hk⟩ :=
+          force_cr X hr hck (cty := compileTy t0)
+            (P := .mu .prd ⟨(freshCovar st).1, 0⟩ (compileTy t0) s1) (ρ := ρ) (out := out) (m := n)
+            hkind trivial (Nat.le_refl n) hagc (prdOK_mu _ _ _ _ _ _)
+        simp only [Core.prdVal, Except.ok.injEq] at hpv
+        subst hpv
+        rw [invoke_thunk] at hs
+        have hlast : CSteps q S1 ⟨s1, (⟨(freshCovar st).1, 0⟩, .dtor ⟨d, 0⟩ Vs) :: ρ1, out, S1.fresh⟩ 1 := by
+          refine .one ?_
+          rw [hs, ho]
+        obtain ⟨ρ01, hext0, hagx⟩ := hext.agree (ρ0 := ρ0)
+        refine Chunk.prefixCore (hcs.trans hlast) rfl
+          (Hcore S1.fresh _ _ _ ((⟨(freshCovar st).1, 0⟩, .dtor ⟨d, 0⟩ Vs) :: ρ01) _ hm1 hx
+            (fs_stepRel.freshCovar st) (hcn1 _) hnb ?_ ?_ ?_ ?_)
+        · refine ((he.mono hm1).sigExt hext0 fun y hy e => hnosig (e ▸ hxs y hy)).agree
+            fun y hy => lookup_cons_ne (hxne y hy) _ _
+        · exact .mkD (by simp [Core.cnsVal, lookup_cons]) hk trivial
+            (fun b hb => by rw [mem_tfv_var] at hb; subst hb; exact ⟨_, lookup_cons_self _ _ _⟩) hkind
+        · exact BoundOn.cons (hbd1.sigExt hext0)
+        · exact AgreeOn.cons (hagx _ hag1)
   · rw [if_neg hbo] at hcomp
     have hbo' : bindersOccurFree binders c = false := by simpa using hbo
-    refine Hcore c st s ρ0 ρ hcomp (fs_stepRel.refl st) hcn ?_ he hr hbd hag
+    refine Hcore n c st s ρ0 ρ (Nat.le_refl n) hcomp (fs_stepRel.refl st) hcn ?_ he hr hbd hag
     intro b hb hmem
     exact (bindersOccurFree_false.1 hbo') _ hmem (List.mem_map.2 ⟨b, hb, rfl⟩)
 
